@@ -242,7 +242,10 @@ func DefaultsMatrix() *m.Design {
 	prio := &m.UserType{Name: "Priority", Var: "vprio", Attr: withDef(&m.Attr{Type: &m.Type{Kind: m.Int}, V: &m.Validation{Min: fp(0), Max: fp(9)}}, value.Int(3))}
 	label := &m.UserType{Name: "Label", Var: "vlabel", Attr: withDef(m.Prim(m.String), value.Str("none"))}
 	ratio := &m.UserType{Name: "Ratio", Var: "vratio", Attr: withDef(m.Prim(m.Float64), value.Float(0.5))}
-	step := &m.UserType{Name: "Step", Var: "vstep", Attr: obj(fld("name", m.Prim(m.String), true), fld("priority", fromAlias("Priority", value.Int(3)), false), fld("weight", withDef(m.Prim(m.Int), value.Int(5)), false))}
+	mapOf := func(k, v *m.Attr) *m.Attr { return &m.Attr{Type: &m.Type{Kind: m.Map, Key: k, Val: v}} }
+	// defaults on collections: an explicitly empty array or map is a value of its own, only an unset one gets the default
+	step := &m.UserType{Name: "Step", Var: "vstep", Attr: obj(fld("name", m.Prim(m.String), true), fld("priority", fromAlias("Priority", value.Int(3)), false), fld("weight", withDef(m.Prim(m.Int), value.Int(5)), false),
+		fld("tags", withDef(arr(m.Prim(m.String)), value.Array(value.Str("new"), value.Str("misc"))), false))}
 	task := func() *m.Attr {
 		return obj(fld("id", m.Prim(m.String), true),
 			fld("priority", fromAlias("Priority", value.Int(3)), false),
@@ -251,7 +254,9 @@ func DefaultsMatrix() *m.Design {
 			fld("weight", withDef(m.Prim(m.Int), value.Int(5)), false),
 			fld("done", withDef(m.Prim(m.Boolean), value.Bool(true)), false),
 			fld("first", m.UserRef("Step"), false),
-			fld("steps", arr(m.UserRef("Step")), false))
+			fld("steps", arr(m.UserRef("Step")), false),
+			fld("labels", withDef(arr(m.Prim(m.String)), value.Array(value.Str("a"), value.Str("b"))), false),
+			fld("weights", withDef(mapOf(m.Prim(m.String), m.Prim(m.Int64)), value.V{K: "map", A: []value.V{value.Str("w"), value.Int(1)}}), false))
 	}
 	body := &m.Method{Name: "body", Payload: task(), Result: task(), HTTP: &m.HTTPEndpoint{Routes: []m.Route{{Verb: "POST", Path: "/defaults/body"}}}}
 	params := &m.Method{Name: "params", Payload: obj(fld("id", m.Prim(m.String), true),
@@ -262,7 +267,7 @@ func DefaultsMatrix() *m.Design {
 	return &m.Design{API: m.API{Name: "defaults", Title: "Defaults matrix"},
 		Types:    []*m.UserType{prio, label, ratio, step},
 		Services: []*m.Service{{Name: "defaults", HasHTTP: true, Methods: []*m.Method{body, params}}},
-		Features: []string{"fixed-design:defaults-matrix", "alias", "alias-type-default", "default-inherited-from-alias", "default", "nested-default"}}
+		Features: []string{"fixed-design:defaults-matrix", "alias", "alias-type-default", "default-inherited-from-alias", "default", "nested-default", "collection-default"}}
 }
 
 // KindMatrix is a fixed design with one small method per (primitive kind,
